@@ -6655,6 +6655,10 @@ func argToSlice(arg any) []string {
 			dst = append(dst, k, v)
 		}
 		return dst
+	case time.Time, time.Duration, encoding.BinaryMarshaler:
+		// values that serialise themselves are one argument, like in go-redis; without this a lone
+		// time.Time or BinaryMarshaler struct was scanned for `redis` tags and dropped
+		return []string{str(arg)}
 	default:
 		// scan struct field
 		v := reflect.ValueOf(arg)
